@@ -177,11 +177,11 @@ def install(nprocs):
         return f
     wrap(adv.ParallelGradient, "parallel_gradient", pg)
 
-    wrap(ps.DensityFinder, "getPerturbedRho", lambda o: lambda self, g, r: (_stmt("density"), o(self, g, r))[1])
+    wrap(ps.DensityFinder, "getPerturbedRho", lambda o: lambda self, g, r: (_stmt("density", gname(r), gname(g)), o(self, g, r))[1])
     og, of = ps.DiffEqSolver.getModes, ps.DiffEqSolver.findPotential
-    ps.DiffEqSolver.getModes = staticmethod(lambda rho: (_stmt("getModes"), og(rho))[1])
-    ps.DiffEqSolver.findPotential = staticmethod(lambda phi: (_stmt("findPotential"), of(phi))[1])
-    wrap(ps.QuasiNeutralitySolver, "solveEquation", lambda o: lambda self, p, r: (_stmt("solve"), o(self, p, r))[1])
+    ps.DiffEqSolver.getModes = staticmethod(lambda rho: (_stmt("getModes", gname(rho)), og(rho))[1])
+    ps.DiffEqSolver.findPotential = staticmethod(lambda phi: (_stmt("findPotential", gname(phi)), of(phi))[1])
+    wrap(ps.QuasiNeutralitySolver, "solveEquation", lambda o: lambda self, p, r: (_stmt("solve", gname(p), gname(r)), o(self, p, r))[1])
 
 
 def main():
